@@ -2,105 +2,240 @@
 (* Insertion-ordered unique-key map: the reference meaning of                  *)
 (* rkcommon::containers::FlatMap<KEY,VALUE> (property C10).                    *)
 (*                                                                             *)
-(* State: m, a sequence of <<key, value>> pairs.  One action per public entry  *)
-(* point of FlatMap.  The ghost variable `last` records the action just taken, *)
-(* its arguments and every observable the contract constrains after it         *)
-(* (return value / "throws", size, full iteration order); it is what the       *)
-(* conformance drivers are compared with and what trace validation binds to.   *)
+(* State: m, a sequence of <<key, value>> pairs (the map under test), and s, a *)
+(* second map of the same type (copies, assignments and swaps of whole maps,   *)
+(* two instances used alternately).  One action per public entry point of      *)
+(* FlatMap and per way of reaching it that generic code gets wrong: the key    *)
+(* argument may be the key object stored inside the map (EraseAt), values are  *)
+(* written through at(), at_index() and iterators, an insertion may fail with  *)
+(* an exception of the key / value type (InsertThrows).  Macro actions         *)
+(* (PutRange, EraseEvery) stand for whole loops of calls whose content is      *)
+(* defined by a formula, so that sizes on both sides of 2^8 / 2^16 are reached *)
+(* in one step of a history.                                                   *)
+(*                                                                             *)
+(* The map operations themselves are the pure operators PutF / InsF / EraseF   *)
+(* ... on sequences; the actions apply them to m or s.  The ghost variable     *)
+(* `last` records the action just taken, its arguments and every observable    *)
+(* the contract constrains after it (return value / "throws", size, full       *)
+(* iteration order, or a digest of it for maps too large to print); it is what *)
+(* the conformance drivers are compared with and what trace validation binds   *)
+(* to.                                                                         *)
 EXTENDS Integers, Sequences, FiniteSets, TLC
+SX == INSTANCE SequencesExt     \* (named: SequencesExt has a Contains of its own)
 
-CONSTANTS Keys,      \* key universe (integers; drivers map them to int / string keys)
+CONSTANTS Keys,      \* key universe (integers; drivers map them to int / string / instrumented keys)
           Vals,      \* values written by Put (integers # Default)
           Default,   \* value a default-constructed VALUE() stands for
-          MaxSize    \* bound on Len(m) for model checking (>= Cardinality(Keys) = unbounded)
+          MaxSize,   \* bound on Len(m) for model checking (>= Cardinality(Keys) = unbounded)
+          Ext,       \* which of the further action groups Next takes: subset of {"write", "cidx", "throw", "two"}
+                     \* (values written through at_index / iterators, const operator[], failing insertions, the second map)
+          RangeN     \* set of range lengths for the macro actions in Next ({} = none)
 
-VARIABLES m, last
-vars == <<m, last>>
+VARIABLES m, s, last
+vars == <<m, s, last>>
 
-Idx(k)  == {i \in DOMAIN m : m[i][1] = k}
-Has(k)  == Idx(k) # {}
-Pos(k)  == CHOOSE i \in Idx(k) : TRUE
-KeysOf  == {m[i][1] : i \in DOMAIN m}
-Rev(s)  == [i \in 1..Len(s) |-> s[Len(s) + 1 - i]]
-SelectNot(k) == SelectSeq(m, LAMBDA p : p[1] # k)
+-------------------------------------------------------------------------------
+\* The map as a value: pure operators on sequences of <<key, value>>
+IdxIn(mm, k)  == {i \in DOMAIN mm : mm[i][1] = k}
+HasIn(mm, k)  == IdxIn(mm, k) # {}
+PosIn(mm, k)  == CHOOSE i \in IdxIn(mm, k) : TRUE
+ValIn(mm, k)  == mm[PosIn(mm, k)][2]
+PutF(mm, k, v) == IF HasIn(mm, k) THEN [mm EXCEPT ![PosIn(mm, k)] = <<k, v>>] ELSE Append(mm, <<k, v>>)
+InsF(mm, k)   == IF HasIn(mm, k) THEN mm ELSE Append(mm, <<k, Default>>)
+EraseF(mm, k) == SelectSeq(mm, LAMBDA p : p[1] # k)
+SetValAt(mm, i, v) == [mm EXCEPT ![i] = <<mm[i][1], v>>]
+Rev(q)        == [i \in 1..Len(q) |-> q[Len(q) + 1 - i]]
+KeySet(mm)    == {mm[i][1] : i \in DOMAIN mm}
 
-\* the projection every step is compared on
-Proj(mm) == [size |-> Len(mm), empty |-> (Len(mm) = 0), items |-> mm]
+Has(k)  == HasIn(m, k)
+Pos(k)  == PosIn(m, k)
 
-Init == m = <<>> /\ last = [a |-> "Init", arg |-> <<>>, exp |-> Proj(<<>>)]
+\* Macro operations: a whole loop of calls, content defined by a formula.
+\*   PutRange(lo, n, d):  for k = lo .. lo+n-1 in this order:  map[k] = RV(k, d)
+\*   EraseEvery(lo, n, st, r): for k = lo .. lo+n-1 with k % st = r:  map.erase(k)   (any order of the calls gives this)
+RV(k, d)  == ((k * 7 + d) % 997) + 1
+InRange(k, lo, n) == k >= lo /\ k < lo + n
+PutRangeF(mm, lo, n, d) ==
+  LET have  == KeySet(mm)
+      over  == [i \in DOMAIN mm |-> IF InRange(mm[i][1], lo, n) THEN <<mm[i][1], RV(mm[i][1], d)>> ELSE mm[i]]
+      fresh == SelectSeq([i \in 1..n |-> lo + i - 1], LAMBDA k : k \notin have)
+  IN  over \o [i \in 1..Len(fresh) |-> <<fresh[i], RV(fresh[i], d)>>]
+EraseEveryF(mm, lo, n, st, r) == SelectSeq(mm, LAMBDA p : ~(InRange(p[1], lo, n) /\ p[1] % st = r))
 
-TypeOK == /\ m \in Seq(Keys \X (Vals \cup {Default}))
+\* the same by iteration of the single-call operators (the law MacroIsIteration below compares the two)
+RECURSIVE PutRangeIter(_, _, _, _), EraseEveryIter(_, _, _, _, _)
+PutRangeIter(mm, lo, n, d) == IF n = 0 THEN mm ELSE PutRangeIter(PutF(mm, lo, RV(lo, d)), lo + 1, n - 1, d)
+EraseEveryIter(mm, lo, n, st, r) ==
+  IF n = 0 THEN mm ELSE EraseEveryIter(IF lo % st = r THEN EraseF(mm, lo) ELSE mm, lo + 1, n - 1, st, r)
+
+-------------------------------------------------------------------------------
+\* The projection every step is compared on.  Up to ItemsMax entries: the full
+\* sequence; beyond: a digest (order-sensitive hash of all entries, the ends,
+\* and the entries at the indices next to powers of two).
+ItemsMax == 1100
+HashMod  == 65521
+HashStep(acc, p) == (acc * 31 + (p[1] % HashMod) * 7 + (p[2] % HashMod)) % HashMod
+ProbeIdx == <<127, 128, 254, 255, 256, 257, 511, 512, 1023, 1024, 4095, 4096, 65534, 65535, 65536>>   \* 0-based
+Min2(a, b) == IF a < b THEN a ELSE b
+Max2(a, b) == IF a > b THEN a ELSE b
+Digest(mm) ==
+  LET n == Len(mm) IN
+  [dig_hash   |-> SX!FoldLeft(HashStep, 7, mm),
+   dig_head   |-> SubSeq(mm, 1, Min2(3, n)),
+   dig_tail   |-> SubSeq(mm, Max2(1, n - 2), n),
+   dig_probes |-> [j \in 1..Len(ProbeIdx) |-> IF ProbeIdx[j] < n THEN mm[ProbeIdx[j] + 1] ELSE <<>>]]
+Proj(mm) == IF Len(mm) <= ItemsMax
+            THEN [size |-> Len(mm), empty |-> (Len(mm) = 0), items |-> mm]
+            ELSE [size |-> Len(mm), empty |-> FALSE] @@ Digest(mm)
+Obs(mm, ss) == Proj(mm) @@ [items2 |-> ss]
+
+Init == /\ m = <<>> /\ s = <<>>
+        /\ last = [a |-> "Init", arg |-> <<>>, exp |-> Obs(<<>>, <<>>)]
+
+ValDom == Vals \cup {Default} \cup 1..997
+KeyDom == IF RangeN = {} THEN Keys ELSE Int
+TypeOK == /\ m \in Seq(KeyDom \X ValDom)
+          /\ s \in Seq(KeyDom \X ValDom)
+
+\* one step: new primary map mm, new second map ss, what the call returned
+Step(a, arg, ret, mm, ss) ==
+  /\ m' = mm /\ s' = ss
+  /\ last' = [a |-> a, arg |-> arg, exp |-> [ret |-> ret] @@ Obs(mm, ss)]
+StepC(a, cls, arg, ret, mm, ss) ==
+  /\ m' = mm /\ s' = ss
+  /\ last' = [a |-> a, cls |-> cls, arg |-> arg, exp |-> [ret |-> ret] @@ Obs(mm, ss)]
 
 -------------------------------------------------------------------------------
 \* operator[] followed by assignment:  map[k] = v
 Put(k, v) ==
   /\ Has(k) \/ Len(m) < MaxSize
-  /\ m' = IF Has(k) THEN [m EXCEPT ![Pos(k)] = <<k, v>>] ELSE Append(m, <<k, v>>)
-  /\ last' = [a |-> "Put", arg |-> [k |-> k, v |-> v], exp |-> [ret |-> v] @@ Proj(m')]
+  /\ Step("Put", [k |-> k, v |-> v], v, PutF(m, k, v), s)
 
 \* operator[] used as a read:  x = map[k]   (default-inserts an absent key)
 GetOrInsert(k) ==
   /\ Has(k) \/ Len(m) < MaxSize
-  /\ m' = IF Has(k) THEN m ELSE Append(m, <<k, Default>>)
-  /\ last' = [a |-> "GetOrInsert", arg |-> [k |-> k],
-              exp |-> [ret |-> IF Has(k) THEN m[Pos(k)][2] ELSE Default] @@ Proj(m')]
+  /\ Step("GetOrInsert", [k |-> k], IF Has(k) THEN ValIn(m, k) ELSE Default, InsF(m, k), s)
 
-\* at(k): value, or throws std::out_of_range exactly for absent keys
-At(k) ==
-  /\ m' = m
-  /\ last' = [a |-> "At", arg |-> [k |-> k],
-              exp |-> [ret |-> IF Has(k) THEN m[Pos(k)][2] ELSE "throws"] @@ Proj(m)]
+\* at(k), const and non-const: value, or throws std::out_of_range exactly for absent keys
+At(k) == Step("At", [k |-> k], IF Has(k) THEN ValIn(m, k) ELSE "throws", m, s)
 
 \* at(k) = v through the returned reference (present keys only; absent: throws, nothing changes)
 AtAssign(k, v) ==
-  /\ m' = IF Has(k) THEN [m EXCEPT ![Pos(k)] = <<k, v>>] ELSE m
-  /\ last' = [a |-> "AtAssign", arg |-> [k |-> k, v |-> v],
-              exp |-> [ret |-> IF Has(k) THEN v ELSE "throws"] @@ Proj(m')]
+  Step("AtAssign", [k |-> k, v |-> v], IF Has(k) THEN v ELSE "throws", IF Has(k) THEN PutF(m, k, v) ELSE m, s)
 
-Contains(k) ==
-  /\ m' = m
-  /\ last' = [a |-> "Contains", arg |-> [k |-> k], exp |-> [ret |-> Has(k)] @@ Proj(m)]
+Contains(k) == Step("Contains", [k |-> k], Has(k), m, s)
 
-Erase(k) ==
-  /\ m' = SelectNot(k)
-  /\ last' = [a |-> "Erase", arg |-> [k |-> k], exp |-> [ret |-> "void"] @@ Proj(m')]
+Erase(k) == Step("Erase", [k |-> k], "void", EraseF(m, k), s)
 
-Clear ==
-  /\ m' = <<>>
-  /\ last' = [a |-> "Clear", arg |-> <<>>, exp |-> [ret |-> "void"] @@ Proj(m')]
+\* erase(key) where `key` is the key object stored in the map at 0-based index i:
+\*   map.erase(map.at_index(i).first)   /   for (auto &p : map) if (...) { map.erase(p.first); break; }
+\* A removal like any other: exactly that key goes, the rest keeps its order.
+\* (Input classes: the position of the entry, and whether the entry after it has key 0 - under the drivers' plain key
+\*  maps that is the default-constructed key, 0 / the empty string, which is what a moved-from key object looks like.)
+EraseAt(i) ==
+  IF i < Len(m)
+  THEN LET k == m[i + 1][1] IN
+       StepC("EraseAt",
+             IF i + 1 = Len(m) THEN "key=stored-object,last-entry"
+             ELSE IF m[i + 2][1] = 0 THEN "key=stored-object,next-key=0"
+             ELSE "key=stored-object,next-key=other",
+             [i |-> i, k |-> k], "void", EraseF(m, k), s)
+  ELSE StepC("EraseAt", "beyond-the-end", [i |-> i, k |-> -1], "throws", m, s)      \* at_index(i) throws, erase is not reached
 
-\* at_index(i) with 0-based i: the i-th pair in first-insertion order, or throws
-AtIndex(i) ==
-  /\ m' = m
-  /\ last' = [a |-> "AtIndex", arg |-> [i |-> i],
-              exp |-> [ret |-> IF i < Len(m) THEN m[i + 1] ELSE "throws"] @@ Proj(m)]
+Clear == Step("Clear", <<>>, "void", <<>>, s)
 
-\* reverse iteration (rbegin..rend) and the const iterators
-IterRev ==
-  /\ m' = m
-  /\ last' = [a |-> "IterRev", arg |-> <<>>, exp |-> [ret |-> Rev(m)] @@ Proj(m)]
+\* at_index(i) with 0-based i, const and non-const: the i-th pair in first-insertion order, or throws
+AtIndex(i) == Step("AtIndex", [i |-> i], IF i < Len(m) THEN m[i + 1] ELSE "throws", m, s)
 
-IterConst ==
-  /\ m' = m
-  /\ last' = [a |-> "IterConst", arg |-> <<>>, exp |-> [ret |-> m] @@ Proj(m)]
+\* at_index(i).second = v: overwrites the value of the i-th key (throws and changes nothing beyond the end)
+AtIndexAssign(i, v) ==
+  Step("AtIndexAssign", [i |-> i, v |-> v, k |-> IF i < Len(m) THEN m[i + 1][1] ELSE -1],
+       IF i < Len(m) THEN v ELSE "throws", IF i < Len(m) THEN SetValAt(m, i + 1, v) ELSE m, s)
+
+\* (begin() + i)->second = v through the mutable iterator
+IterAssign(i, v) ==
+  IF i < Len(m)
+  THEN Step("IterAssign", [i |-> i, v |-> v, k |-> m[i + 1][1]], v, SetValAt(m, i + 1, v), s)
+  ELSE Step("IterAssign", [i |-> i, v |-> v, k |-> -1], "not-callable", m, s)         \* no such iterator: the driver makes no call
+
+\* reverse iteration (rbegin..rend, const rbegin..rend, crbegin..crend) and the const iterators (begin / cbegin)
+IterRev   == Step("IterRev", <<>>, Rev(m), m, s)
+IterConst == Step("IterConst", <<>>, m, m, s)
+
+\* operator[] const on a present key (an absent key cannot be inserted into a const map: what happens then is not constrained,
+\* the driver asks contains() first and makes no call)
+ConstIndex(k) ==
+  IF Has(k) THEN Step("ConstIndex", [k |-> k], ValIn(m, k), m, s)
+            ELSE Step("ConstIndex", [k |-> k], "not-callable", m, s)                   \* the driver makes no call
 
 \* reserve(n) must not change anything observable
-Reserve(n) ==
-  /\ m' = m
-  /\ last' = [a |-> "Reserve", arg |-> [n |-> n], exp |-> [ret |-> "void"] @@ Proj(m)]
+Reserve(n) == Step("Reserve", [n |-> n], "void", m, s)
+
+\* An insertion of an absent key that fails with an exception: the copy of the key throws (w = "key") or the default
+\* construction of the value throws (w = "val").  The key was not inserted and no other key was: nothing changes.
+InsertThrows(k, w) ==
+  IF ~Has(k) THEN StepC("InsertThrows", w, [k |-> k, w |-> w], "throws", m, s)
+             ELSE StepC("InsertThrows", "key-present", [k |-> k, w |-> w], "not-callable", m, s)   \* the driver makes no call
+
+\* ---- whole maps -------------------------------------------------------------
+CopyTo     == Step("CopyTo", <<>>, "void", m, m)          \* s = map            (copy assignment)
+CopyFrom   == Step("CopyFrom", <<>>, "void", s, s)        \* map = s
+CopyCtor   == Step("CopyCtor", <<>>, "void", m, m)        \* s replaced by FlatMap(map)
+MoveCtor   == Step("MoveCtor", <<>>, "void", <<>>, m)     \* s replaced by FlatMap(std::move(map)); map.clear() afterwards
+MoveAssign == Step("MoveAssign", <<>>, "void", <<>>, m)   \* s = std::move(map); map.clear() afterwards
+SelfAssign == Step("SelfAssign", <<>>, "void", m, s)      \* map = map
+Swap       == Step("Swap", <<>>, "void", s, m)            \* std::swap(map, s)
+\* the second instance used between calls on the first one
+Put2(k, v) ==
+  /\ HasIn(s, k) \/ Len(s) < MaxSize
+  /\ Step("Put2", [k |-> k, v |-> v], v, m, PutF(s, k, v))
+Erase2(k)  == Step("Erase2", [k |-> k], "void", m, EraseF(s, k))
+Clear2     == Step("Clear2", <<>>, "void", m, <<>>)
+
+\* ---- macro actions ------------------------------------------------------------
+PutRange(lo, n, d) ==
+  /\ lo >= 0 /\ n >= 0
+  /\ Cardinality(KeySet(m) \cup lo..(lo + n - 1)) <= MaxSize
+  /\ StepC("PutRange", n, [lo |-> lo, n |-> n, d |-> d], "void", PutRangeF(m, lo, n, d), s)
+
+\* how = "key": erase(k) for the keys of the range in ascending order;
+\* how = "alias": one pass over the entries, erase(at_index(i).first) for those in the class - the same removals
+EraseEvery(lo, n, st, r, how) ==
+  /\ lo >= 0 /\ n >= 0 /\ st > 0
+  /\ StepC("EraseEvery", how, [lo |-> lo, n |-> n, st |-> st, r |-> r, how |-> how], "void", EraseEveryF(m, lo, n, st, r), s)
 
 Next ==
   \/ \E k \in Keys, v \in Vals : Put(k, v) \/ AtAssign(k, v)
   \/ \E k \in Keys : GetOrInsert(k) \/ At(k) \/ Contains(k) \/ Erase(k)
   \/ Clear \/ IterRev \/ IterConst
   \/ \E i \in 0..MaxSize : AtIndex(i)
+  \/ \E i \in 0..(MaxSize - 1) : EraseAt(i)
   \/ \E n \in {0, 7} : Reserve(n)
+  \/ /\ "write" \in Ext
+     /\ \E i \in 0..MaxSize, v \in Vals : AtIndexAssign(i, v) \/ IterAssign(i, v)
+  \/ /\ "cidx" \in Ext
+     /\ \E k \in Keys : ConstIndex(k)
+  \/ /\ "throw" \in Ext
+     /\ \E k \in Keys, w \in {"key", "val"} : InsertThrows(k, w)
+  \/ /\ "two" \in Ext
+     /\ \/ \E k \in Keys, v \in Vals : Put2(k, v)
+        \/ \E k \in Keys : Erase2(k)
+        \/ CopyTo \/ CopyFrom \/ CopyCtor \/ MoveCtor \/ MoveAssign \/ SelfAssign \/ Swap \/ Clear2
+  \/ \E n \in RangeN, lo \in Keys, d \in Vals :
+        \/ PutRange(lo, n, d)
+        \/ \E st \in 1..2, r \in 0..1, how \in {"key", "alias"} : EraseEvery(lo, n, st, r, how)
 
 Spec == Init /\ [][Next]_vars
 
 -------------------------------------------------------------------------------
 \* Invariants of the reference itself
-UniqueKeys == \A i, j \in DOMAIN m : m[i][1] = m[j][1] => i = j
-Bounded    == Len(m) <= MaxSize
-LastAgrees == last.exp.items = m /\ last.exp.size = Len(m)
+UniqueKeys == Cardinality(KeySet(m)) = Len(m) /\ Cardinality(KeySet(s)) = Len(s)
+Bounded    == Len(m) <= MaxSize /\ Len(s) <= MaxSize
+LastAgrees == /\ last.exp.size = Len(m) /\ last.exp.items2 = s
+              /\ Len(m) <= ItemsMax => last.exp.items = m
+\* a macro action is the iteration of the single calls it stands for
+MacroIsIteration ==
+  \A n \in RangeN, lo \in Keys, d \in Vals :
+     /\ Cardinality(KeySet(m) \cup lo..(lo + n - 1)) <= MaxSize => PutRangeF(m, lo, n, d) = PutRangeIter(m, lo, n, d)
+     /\ \A st \in 1..2, r \in 0..1 : EraseEveryF(m, lo, n, st, r) = EraseEveryIter(m, lo, n, st, r)
 ===============================================================================
